@@ -120,8 +120,15 @@ def run(facts, tr, rep):
                if ok else "; ".join(why))
 
     # ---------------------------------------------------------------- READY + REQ
+    # (on the inlined view: a private helper that takes the ready instance, or an async helper that performs the
+    # call, is analysed where it is used)
     n_inner = 0
+    R_orig, tr_orig, facts_orig = R, tr, facts
+    facts, tr = facts.inl, tr.inl
+    R = Ready(facts, tr)
     for b in facts.all_bodies():
+        if facts.absorbed(b):
+            continue
         g = graph(b)
         for cs in g.calls():
             if not is_inner_call(cs):
@@ -173,6 +180,7 @@ def run(facts, tr, rep):
     FL = Flow(facts, tr)
     nresp = 0
     for (c, im, adt, pf) in impls:
+        c = facts.crates[c.name]
         items = {it["name"]: it["def"] for it in im["items"]}
         cb = facts.bodies.get(items.get("call"))
         pr = facts.bodies.get(items.get("poll_ready"))
@@ -254,6 +262,7 @@ def run(facts, tr, rep):
                 "the inner error is not wrapped by the pass-through constructor %s used in poll_ready (seen: %s)" % (P, sorted(ctors_all))))
         rep.note("RESP %s: pass-through=%s, constructors on outcome paths=%s" % (adt["def"].split("::")[-1], P, sorted(ctors_all)))
     rep.floor("C20.resp-services", nresp, 14)
+    facts, tr, R = facts_orig, tr_orig, R_orig
     # ---------------------------------------------------------------- the umbrella crate holds no logic
     um = facts.crates.get("tower_resilience")
     if um is None:
